@@ -257,6 +257,19 @@ def cases(tier, rng):
             n = ["G", 3, ch, vel]
             out.append(S([["attach", 1], ["play_note", n], ["stop_note", n], ["play_nc", [n, ["B", 3, 15 - ch, vel]], 5], ["stop_nc", [n, ["B", 3, 15 - ch, vel]], 5]], "note"))
     out.append(S([["attach", 0], ["play_nc", None, 1], ["stop_nc", None, 1], ["play_nc", [], 1], ["stop_nc", [], 1]], "note:rest"))
+    # the lowest and the highest notes there are (pitch number + 12 whatever it comes to), alone, in containers and in a bar
+    for n in (["C", 0, 1, 64], ["Cb", 0, 2, 64], ["G", 9, 1, 64], ["G#", 9, 3, 64], ["B", 9, 1, 100], ["C", 10, 4, 64], ["B#", 10, 1, 64]):
+        _pv = lambda x: 12 * x[1] + {"C": 0, "D": 2, "E": 4, "F": 5, "G": 7, "A": 9, "B": 11}[x[0][0]] + x[0].count("#") - x[0].count("b")
+        pair = sorted([n, ["A", 9, 5, 1]], key=_pv)            # a container holds its notes from low to high
+        pair2 = sorted([n, ["A#", 9, 1, 64]], key=_pv)
+        out.append(S([["attach", 0], ["play_note", n], ["stop_note", n], ["play_nc", pair, 2], ["stop_nc", pair, 2],
+                      ["bar", ["C", 4, 4, [[2, [n]], [2, pair2]]], 1, 120]], "note:extreme"))
+    # every whole tempo up to 300, as the call's tempo and as a container's tempo change: the return value reports it
+    for bpm in range(1, 301):
+        if bpm % 2:
+            out.append(S([["bar", ["C", 4, 4, [[32, [A]]]], 1, bpm]], "bar:tempo-every"))
+        else:
+            out.append(S([["track", ["t", None, [["C", 4, 4, [[32, [A]], [32, [B], bpm]]]]], 1, 120]], "bar:tempo-every"))
     # sequential bars: a rest in every position, tempo changes
     for n in range(1, 5):
         for mask in range(2 ** n):
